@@ -64,6 +64,18 @@ func hashOpen(k, c, m, w []byte) string {
 	return verdict(func() error { return key.Open(com, m, wit) })
 }
 
+// nilMessageNote records (as a note, not a violation) how the nil byte slice is treated: it is
+// the empty message for CommitWithWitness but refused by Commit and Open (utils.IsNil) — a
+// one-sided refusal outside the model (the model has no nil).
+func nilMessageNote(r *runner, key *hashcom.CommitmentKey, wit hashcom.Witness) {
+	c1, e1 := key.CommitWithWitness(nil, wit)
+	c2, e2 := key.CommitWithWitness([]byte{}, wit)
+	o := key.Open(c1, nil, wit)
+	o2 := key.Open(c1, []byte{}, wit)
+	r.res.Note("nil message: CommitWithWitness(nil) err=%v equals commitment to empty message=%v; Open(c, nil, w) refused=%v; Open(c, []byte{}, w) ok=%v",
+		e1 != nil, e1 == nil && e2 == nil && c1.Equal(c2), o != nil, o2 == nil)
+}
+
 func hashcomCase(r *runner, i int) {
 	rng := vh.NewRng(r.a.Seed, "C18", "hashcom", i)
 	key, err := hashcom.SampleCommitmentKey(rng)
@@ -78,6 +90,9 @@ func hashcomCase(r *runner, i int) {
 		return
 	}
 	base += " wit=" + vh.Hex(wit[:]) + " com=" + vh.Hex(com[:])
+	if i == 0 {
+		nilMessageNote(r, key, wit)
+	}
 	// CommitWithWitness must be the same function
 	if c2, err := key.CommitWithWitness(msg, wit); err != nil || !c2.Equal(com) {
 		r.prop(id, "hashcom-commit-nondeterministic", "CommitWithWitness(message, witness) differs from Commit's commitment", base, "hashcom_open_iff")
